@@ -12,7 +12,7 @@ BOUNDS = {
               '6 shipped + fp16 + a16 + per-op selective SRQ8/WO/DRQ + all-but-one',
               'statistics': 'symbolic float32 min<=max per runtime tensor',
               'paths_per_case_cap': 3000},
-    'thorough': {'skeletons': 'same family + 240 random DAGs of 2-4 operators '
+    'thorough': {'skeletons': 'same family + 1200 random DAGs of 2-5 operators '
                  '(seeded by VERIF_SEED) over a 12-kind table with random '
                  'graph-output sets', 'recipes': 'quick + a16/mixed '
                  'selective variants', 'statistics': 'symbolic',
